@@ -49,11 +49,13 @@ var resources = []resource{
 var varyFields = []string{"X-A", "X-B", "Content-Language", "User-Agent", "Authorization", "If-Unmodified-Since", "Accept-Encoding", "Te", "Accept"}
 
 var fieldValues = map[string][]string{
-	"X-A":                 {"1", "2", "1X-B2", "", "a, b", "b, a", "1 ", "é", "caf\xe9", "caf\xe8"},
-	"X-B":                 {"2", "1", "", "x"},
-	"Content-Language":    {"en, fr", "fr,en", "fr ,  en", "en", "EN", "en, fr, en"},
-	"User-Agent":          {"Go-Client/1", "go-client/1", "GO-CLIENT/1", "other", "caf\xe9/1.0", "caf\xe8/1.0", "CAF\xe9/1.0"},
-	"Authorization":       {"Basic abc", "BASIC abc", "basic abc", "Basic ABC", "Bearer t"},
+	"X-A":              {"1", "2", "1X-B2", "", "a, b", "b, a", "1 ", "é", "caf\xe9", "caf\xe8"},
+	"X-B":              {"2", "1", "", "x"},
+	"Content-Language": {"en, fr", "fr,en", "fr ,  en", "en", "EN", "en, fr, en"},
+	"User-Agent":       {"Go-Client/1", "go-client/1", "GO-CLIENT/1", "other", "caf\xe9/1.0", "caf\xe8/1.0", "CAF\xe9/1.0"},
+	"Authorization": {"Basic abc", "BASIC abc", "basic abc", "Basic ABC", "Bearer t",
+		// credentials with auth-params: everything after the scheme is the credential, not only its first word
+		`Digest username="alice", realm="x", response="1"`, `Digest username="bob", realm="x", response="2"`, `DIGEST username="alice", realm="x", response="1"`},
 	"If-Unmodified-Since": {"Sat, 01 Jan 2000 00:00:00 GMT", " Sat, 01 Jan 2000 00:00:00 GMT ", "Sun, 02 Jan 2000 00:00:00 GMT"},
 	// the q-value classes: plain token lists (whose equivalence is order, white space, duplicates and the
 	// x-gzip / x-compress aliases, whatever a cache makes of q-values) and a few weighted ones
@@ -170,7 +172,26 @@ func (g *G) genRandom(id string, opt randOpt) *History {
 			}
 			hdr = append(hdr, [2]string{"Range", "bytes=0-1"})
 		}
-		if g.chance(0.15) {
+		bypass := method != "GET" || len(hdrToHTTP(hdr).Values("Range")) > 0
+		switch {
+		case bypass && g.prop == "C18" && g.chance(0.5):
+			// requests the cache does not handle itself, with only-if-cached anywhere in the field: first, last,
+			// on a line of its own behind other directives, with an argument
+			cc := []string{pick(g, "no-store", "max-age=0", "no-transform", `ext="a, b"`)}
+			oic := pick(g, "only-if-cached", "Only-If-Cached", "only-if-cached=1")
+			if g.chance(0.5) {
+				cc = append(cc, oic)
+			} else {
+				cc = append([]string{oic}, cc...)
+			}
+			if g.chance(0.6) {
+				for _, d := range cc {
+					hdr = append(hdr, [2]string{"Cache-Control", d})
+				}
+			} else {
+				hdr = append(hdr, [2]string{"Cache-Control", ccJoin(cc)})
+			}
+		case g.chance(0.15):
 			if cc := g.genReqCC(); len(cc) > 0 {
 				hdr = append(hdr, g.ccLines(cc)...)
 			}
